@@ -50,15 +50,19 @@ func scopeList(m map[int]bool) []int {
 
 // Obl is a proof obligation.
 type Obl struct {
-	Name   string
-	Kind   string // S, T, F, L, O, pre, inv
-	Pos    string
-	PC     *T
-	Goal   *T
-	NFacts int
-	Func   string
-	Scopes map[int]bool
-	FuncKey string
+	Name      string
+	Kind      string // S, T, F, L, O, pre, inv
+	Pos       string
+	PC        *T
+	Goal      *T
+	NFacts    int
+	Func      string
+	Scopes    map[int]bool
+	FuncKey   string
+	FactIdx   int          // index of the fact that assumes this obligation for what follows (-1: none)
+	Support   bool         // not part of the property's selection; later selected obligations assume it, so it is solved too
+	Excl      map[int]bool // facts to leave out of the query (failed supporting obligations)
+	DependsOn string       // set when the obligation only fails without a failed supporting obligation's fact
 	// filled by solver
 	Result  string
 	Backend string
@@ -102,15 +106,15 @@ type closure struct {
 
 // Program holds everything loaded.
 type Program struct {
-	pkgs      map[string]*packages.Package // by path
-	fset      *token.FileSet
-	contracts *Contracts
-	funcDecls map[*types.Func]*ast.FuncDecl
-	funcPkg   map[*types.Func]*packages.Package
-	funcByKey map[string]*types.Func // pkgpath.Key -> func
-	sentinels []*types.Var           // package-level error vars of repo packages
-	mapLits   map[*types.Var]*ast.CompositeLit
-	globalInit map[*types.Var]ast.Expr
+	pkgs          map[string]*packages.Package // by path
+	fset          *token.FileSet
+	contracts     *Contracts
+	funcDecls     map[*types.Func]*ast.FuncDecl
+	funcPkg       map[*types.Func]*packages.Package
+	funcByKey     map[string]*types.Func // pkgpath.Key -> func
+	sentinels     []*types.Var           // package-level error vars of repo packages
+	mapLits       map[*types.Var]*ast.CompositeLit
+	globalInit    map[*types.Var]ast.Expr
 	repoSentinels []*types.Var
 }
 
@@ -122,68 +126,70 @@ type Exec struct {
 	fc   *FuncContract
 	name string // display name pkg.Func
 
-	decls     map[string]string
-	declOrder []string
-	facts     []*T
+	decls      map[string]string
+	declOrder  []string
+	facts      []*T
 	factScopes [][]int // per fact: loop-body instances it was assumed in
-	nScope    int
-	obls      []*Obl
-	nfresh    int
-	st        *State
-	frames    []*frame
-	loops     []*loopFrame
-	quiet     int
-	oblCount  map[string]int
+	nScope     int
+	obls       []*Obl
+	nfresh     int
+	st         *State
+	frames     []*frame
+	loops      []*loopFrame
+	quiet      int
+	oblCount   map[string]int
 
-	keyType   map[string]types.Type
-	objKey    map[types.Object]string
-	boxed     map[types.Object]bool
-	noSR      map[types.Object]bool // struct variables kept as one handle (parameters of predicate literals)
-	closures  map[string]*closure
-	builders  map[string]bool
-	dynType   map[string]types.Type // term string -> concrete type of interface value
-	strLits   map[string]*T
-	loopN     int
+	keyType     map[string]types.Type
+	objKey      map[types.Object]string
+	boxed       map[types.Object]bool
+	noSR        map[types.Object]bool // struct variables kept as one handle (parameters of predicate literals)
+	closures    map[string]*closure
+	builders    map[string]bool
+	dynType     map[string]types.Type // term string -> concrete type of interface value
+	strLits     map[string]*T
+	loopN       int
 	inlineDepth int
 	inlineStack []string
 
 	oldState   *State
 	paramVals  map[string]Val
+	rangeOps   map[string]Val // operands of the range loops currently executing, by index key
+	views      []viewRec          // variables bound to a two-index slice of another variable (possible spare capacity over live elements)
 	paramObjs  map[*types.Var]Val // entry values of the parameters of the function under verification
 	entryStack []*State
 
-	unmodelled map[string]bool
-	stores     map[string]bool
-	assumptions map[string]bool
-	libUsed    map[string]bool
-	heapSort   map[string]Sort
-	warnings   map[string]bool
-	mkSeen     map[string]int
-	factTag    map[int]string
-	lemmasUsed map[string]bool
-	untouched  map[*State]bool // branch states whose path condition is still the branch condition (no early exit inside)
-	code       []*codeCtx
-	nInline    int
-	exitHook   func(outs []Val, suffix string)
-	exitsChecked bool
-	ghostEnv     []map[string]Val
-	beWhole      *T
-	skipSafety   bool // behavior runs: safety/termination/frame obligations are proved in the default run
-	bindsUsed    map[*Bind]bool
+	unmodelled    map[string]bool
+	stores        map[string]bool
+	assumptions   map[string]bool
+	libUsed       map[string]bool
+	heapSort      map[string]Sort
+	warnings      map[string]bool
+	mkSeen        map[string]int
+	factTag       map[int]string
+	lemmasUsed    map[string]bool
+	untouched     map[*State]bool // branch states whose path condition is still the branch condition (no early exit inside)
+	code          []*codeCtx
+	nInline       int
+	exitHook      func(outs []Val, suffix string)
+	exitsChecked  bool
+	ghostEnv      []map[string]Val
+	beWhole       *T
+	skipSafety    bool // behavior runs: safety/termination/frame obligations are proved in the default run
+	bindsUsed     map[*Bind]bool
 	callsitesUsed map[*CallsiteClause]bool
-	frameVars    map[string]Val
-	frameTargets [][2]any
-	lastFrame  *frame
-	sizes      []*T
-	strKeys    []*T
-	drift      []string
-	dryStates  []*State
-	gotoHandler func(label string)
-	errs       []string
-	curPos     token.Pos
-	pendingLabel string
-	inputs     []Val // parameter terms for model extraction
-	inputNames []string
+	frameVars     map[string]Val
+	frameTargets  [][2]any
+	lastFrame     *frame
+	sizes         []*T
+	strKeys       []*T
+	drift         []string
+	dryStates     []*State
+	gotoHandler   func(label string)
+	errs          []string
+	curPos        token.Pos
+	pendingLabel  string
+	inputs        []Val // parameter terms for model extraction
+	inputNames    []string
 }
 
 func newExec(prog *Program, pkg *packages.Package, fn *types.Func, fc *FuncContract) *Exec {
@@ -314,9 +320,13 @@ func (ex *Exec) assert(kind, label string, goal *T) {
 	if n := ex.oblCount[base]; n > 1 {
 		name = fmt.Sprintf("%s#%d", base, n)
 	}
-	o := &Obl{Name: name, Kind: kind, Pos: ex.posString(ex.curPos), PC: ex.st.pc, Goal: goal, NFacts: len(ex.facts), Func: ex.name, Scopes: ex.st.scopes}
+	o := &Obl{Name: name, Kind: kind, Pos: ex.posString(ex.curPos), PC: ex.st.pc, Goal: goal, NFacts: len(ex.facts), Func: ex.name, Scopes: ex.st.scopes, FactIdx: -1}
 	ex.obls = append(ex.obls, o)
+	n0 := len(ex.facts)
 	ex.assume(goal)
+	if len(ex.facts) == n0+1 {
+		o.FactIdx = n0
+	}
 }
 
 // ---- types and sorts ----
@@ -936,6 +946,64 @@ func (ex *Exec) branch(base *State, c *T, f func()) *State {
 
 func (ex *Exec) topContract() *FuncContract { return ex.fc }
 
+// viewRec: dst was assigned src[lo:hi]; appending to dst may write into the part of src's array that src still shows.
+type viewRec struct {
+	dst, src string
+	srcExpr  ast.Expr
+}
+
+// recordView notes "dst = src[lo:hi]" (no capacity limit) for slices.
+func (ex *Exec) recordView(dst ast.Expr, rhs ast.Expr) {
+	se, ok := unparen(rhs).(*ast.SliceExpr)
+	if !ok || se.Max != nil || se.Slice3 {
+		return
+	}
+	if _, ok := ex.typeOf(se.X).Underlying().(*types.Slice); !ok {
+		return
+	}
+	switch unparen(se.X).(type) {
+	case *ast.Ident, *ast.SelectorExpr, *ast.IndexExpr, *ast.StarExpr:
+	default:
+		return
+	}
+	d, s := exprString(dst), exprString(se.X)
+	if d == s || d == "_" {
+		return
+	}
+	for _, v := range ex.views {
+		if v.dst == d && v.src == s {
+			return
+		}
+	}
+	ex.views = append(ex.views, viewRec{d, s, se.X})
+}
+
+// checkAppendAlias emits O:append-alias obligations: an append to a variable that was bound to a view of another
+// slice must not write into a cell that the other slice still shows (the engine's arrays are immutable values, so
+// such a write would otherwise go unnoticed).
+func (ex *Exec) checkAppendAlias(arg ast.Expr, s Val, nothingWritten *T) {
+	if ex.quiet > 0 {
+		return
+	}
+	a := exprString(unparen(arg))
+	for _, v := range ex.views {
+		if v.dst != a {
+			continue
+		}
+		nerr := len(ex.errs)
+		ex.quiet++
+		cur := ex.eval(v.srcExpr)
+		ex.quiet--
+		if len(ex.errs) > nerr {
+			ex.errs = ex.errs[:nerr]
+			continue
+		}
+		w := Add(SOff(s.T), SLen(s.T))
+		ex.assert("O", "append-alias["+a+" over "+v.src+"]", Or(nothingWritten, Eq(SCap(s.T), SLen(s.T)), Ne(SBase(s.T), SBase(cur.T)),
+			Lt(w, SOff(cur.T)), Le(Add(SOff(cur.T), SLen(cur.T)), w)))
+	}
+}
+
 // checkAppendOwner emits the O:append-shared obligation: appending to a slice that may share its
 // array with the caller must not be able to write into spare capacity.
 func (ex *Exec) checkAppendOwner(arg ast.Expr, s Val) {
@@ -972,4 +1040,14 @@ func splitGoal(g *T) []*T {
 		return out
 	}
 	return []*T{g}
+}
+
+func unparen(e ast.Expr) ast.Expr {
+	for {
+		p, ok := e.(*ast.ParenExpr)
+		if !ok {
+			return e
+		}
+		e = p.X
+	}
 }
